@@ -16,6 +16,10 @@ func init() {
 				_, nSink := reportOrderEvents(p, r, or, orderRules{sink: "R15d"})
 				r.Floor("R15d", "requires-sorted call sites reached from the tracker", nSink, 2)
 			}},
+			{ID: "R15i", Statement: "the memory limit bounds, it does not size", Run: func(p *Program, r *Report) {
+				r.Rule("R15i", "LIMIT-NOT-ALLOCATED: no allocation of the schedule generator is sized by its memory-limit parameter (the property ranges over limits up to unbounded)")
+				checkLimitNotAllocated(p, r, "R15i")
+			}},
 			{ID: "R15h", Statement: "generating a schedule leaves the recorded history untouched", Run: func(p *Program, r *Report) {
 				r.Rule("R15h", "HISTORY-READ-ONLY: under GenerateCachingSchedule no write (element store, append onto, in-place sort/delete/insert, copy into) reaches a list recorded by AddBlockSummary or anything that may alias it")
 				checkHistoryReadOnly(p, r, "R15h")
